@@ -16,7 +16,9 @@ def register(reg):
   reg.private('PhaseExecutorThread', '_phase_execution_outcome', '_phase_desc', '_test_state', '_subtest_rec', '_killed', '_running_lock')
   reg.private('PhaseExecutionOutcome', 'phase_result')
   reg.private('ExceptionInfo', 'exc_type', 'exc_val', 'exc_tb')
-  reg.private('TestExecutor', 'test_state', '_phase_exec', '_last_outcome', '_last_execution_unit', '_abort', '_full_abort')
+  reg.private('TestExecutor', 'test_state', '_phase_exec', '_last_outcome', '_last_execution_unit', '_abort', '_full_abort',
+              '_phase_profile_stats', '_teardown_phases_lock', '_lock', '_test_options', '_test_start', '_test_descriptor',
+              '_run_phases_with_profiling', 'uid')
   reg.private('TestState', '_status', 'test_record', 'running_phase_state', 'test_options', 'plug_manager', 'diagnoses_manager')
   reg.private('PhaseExecutor', 'test_state', '_stopping', '_current_phase_thread', '_current_phase_thread_lock')
   reg.private('TestRecord', 'outcome', 'phases', 'subtests', 'branches', 'checkpoints', 'diagnoses', 'end_time_millis',
@@ -108,6 +110,7 @@ def register(reg):
   register_finalize(reg)
   register_finalize2(reg)
   register_executor(reg)
+  register_repeat(reg)
 
   c = reg.contract('openhtf/util/threads.py', 'KillableThread.kill', props=['C12'])
   c.ensures('kill_flag_set', 'self._killed.is_set()')
@@ -341,18 +344,61 @@ def register_executor(reg):
   c.ensures('fail_subtest_only_in_subtest', 'implies(result[0].is_fail_subtest, subtest_rec is not None)')
   c.ensures('phase_slot_released', 'self.test_state.running_phase_state is None')
   c.modifies('*user', 'list(%s)' % records, 'self.test_state.running_phase_state', 'self.test_state._running_test_api',
-             'self._current_phase_thread', 'PhaseRecord.outcome', 'PhaseRecord.result', 'PhaseRecord.marginal',
-             'PhaseRecord.end_time_millis', 'PhaseRecord.options', 'event.flag', 'threading.Thread.alive')
+             'self._current_phase_thread', 'event.flag', 'threading.Thread.alive')
 
-  c = reg.contract(PE, 'PhaseExecutor.skip_phase', props=['C05', 'C02'], name='PhaseExecutor.skip_phase[verify]', callsite=False)
+  c = reg.contract(PE, 'PhaseExecutor.skip_phase', props=['C05', 'C02'], name='PhaseExecutor.skip_phase[verify]', callsite=True)
   c.param('phase_desc', 'ref:PhaseDescriptor').param('subtest_rec', 'opt:ref:SubtestRecord')
   c.ghost('diag_calls', 'int').ghost('body_starts', 'int')
   c.requires('no_phase_running', 'self.test_state.running_phase_state is None')
   c.ensures('one_skip_record', '%s and %s.outcome is %s.SKIP and %s' % (one, last, PO, prefix_kept))
   c.ensures('body_not_invoked', "ghost('body_starts') == old(ghost('body_starts')) and ghost('diag_calls') == old(ghost('diag_calls'))")
+  c.ensures('phase_slot_released', 'self.test_state.running_phase_state is None')
   c.modifies('list(%s)' % records, 'self.test_state.running_phase_state', 'self.test_state._running_test_api',
              'PhaseRecord.outcome', 'PhaseRecord.result', 'PhaseRecord.marginal', 'PhaseRecord.end_time_millis',
              'PhaseRecord.start_time_millis', 'PhaseRecord.options', 'PhaseRecord.measurements', 'PhaseRecord.subtest_name',
              'Measurement.outcome', 'Measurement.marginal', 'Measurement._notification_cb',
              'DiagnosesStore._diagnoses_by_results', 'DiagnosesStore._diagnoses', 'list(self.test_state.test_record._cached_phases)',
              'list(self.test_state.test_record.diagnoses)')
+
+
+def register_repeat(reg):
+  records = 'self.test_state.test_record.phases'
+  grows = ('len({r}) >= old(len({r})) and forall_int(lambda j: implies(0 <= j and j < old(len({r})), '
+           '{r}[j] is old(content({r}))[j]))').format(r=records)
+  new_have_outcome = ('forall_int(lambda j: implies(old(len({r})) <= j and j < len({r}), {r}[j].outcome is not None))').format(r=records)
+  limit = '(phase.options.repeat_limit if phase.options.repeat_limit else 3)'
+  c = reg.contract(PE, 'PhaseExecutor.execute_phase', props=['C05', 'C01'], name='PhaseExecutor.execute_phase[verify]', callsite=True)
+  c.param('phase', 'ref:PhaseDescriptor').param('run_with_profiling', 'bool').param('subtest_rec', 'opt:ref:SubtestRecord')
+  c.ghost('diag_calls', 'int').ghost('body_starts', 'int')
+  c.returns('ptuple(ref:PhaseExecutionOutcome;val{none,ref:object})')
+  c.requires('no_phase_running', 'self.test_state.running_phase_state is None')
+  c.requires('not_profiling', 'not run_with_profiling')
+  c.requires('timeout_is_a_number', 'phase.options.timeout_s is None or (phase.options.timeout_s >= 0 and phase.options.timeout_s < 2**60)')
+  c.requires('repeat_limit_is_positive', 'phase.options.repeat_limit is None or phase.options.repeat_limit >= 0')
+  c.ensures('records_only_appended', grows)
+  c.ensures('new_records_have_outcomes', new_have_outcome)
+  c.ensures('at_most_repeat_limit_invocations', "ghost('body_starts') <= old(ghost('body_starts')) + %s" % limit)
+  c.ensures('fail_subtest_only_in_subtest', 'implies(result[0].is_fail_subtest, subtest_rec is not None)')
+  c.ensures('repeat_only_below_the_limit', 'True')
+  c.ensures('phase_slot_released', 'self.test_state.running_phase_state is None')
+  no_forced = 'not phase.options.repeat_on_timeout and not phase.options.force_repeat'
+  new_err = ('forall_int(lambda j: implies(old(len({r})) <= j and j < len({r}) and {r}[j].outcome is {po}.ERROR, {concl}))')
+  c.ensures('ERROR_record_means_terminal_result_without_forced_repeats',
+            'implies(%s, %s)' % (no_forced, new_err.format(r=records, po=PO, concl='result[0].is_terminal')))
+  # C01 relies on "an ERROR record comes with a terminal result".  With repeat_on_timeout / force_repeat the executor re-runs
+  # a phase whose attempt timed out or raised, keeps that attempt's ERROR record, and may return a non-terminal result:
+  # the unconditional clause is expected to fail on the pinned tree (known finding, reproduced natively).
+  c.ensures('ERROR_record_means_terminal_result', new_err.format(r=records, po=PO, concl='result[0].is_terminal'))
+  c.modifies('*user', 'list(%s)' % records, 'self.test_state.running_phase_state', 'self.test_state._running_test_api',
+             'self._current_phase_thread', 'event.flag', 'threading.Thread.alive')
+  c.loop('while not self._stopping.is_set()',
+         inv=[('count_in_range', '1 <= repeat_count and repeat_count <= %s and repeat_limit == %s' % (limit, limit)),
+              ('one_invocation_per_round', "ghost('body_starts') <= old(ghost('body_starts')) + repeat_count - 1"),
+              ('records_only_appended', grows), ('new_records_have_outcomes', new_have_outcome),
+              ('no_ERROR_record_is_left_behind_without_forced_repeats',
+               'implies(not phase.options.repeat_on_timeout and not phase.options.force_repeat, '
+               'forall_int(lambda j: implies(old(len({r})) <= j and j < len({r}), {r}[j].outcome is not {po}.ERROR)))'.format(r=records, po=PO)),
+              ('phase_slot_released', 'self.test_state.running_phase_state is None')],
+         modifies=['*user', 'list(%s)' % records, 'self.test_state.running_phase_state', 'self.test_state._running_test_api',
+                   'self._current_phase_thread', 'event.flag', 'threading.Thread.alive'],
+         vars={'repeat_count': 'int', 'is_last_repeat': 'bool'})
